@@ -12,14 +12,14 @@ EXPECT = {
  'C05/1': (['C05'], 'missed at first: added the multiplier-bound obligation (|multiplier| <= 1 with partial pivoting) and the native hook libphysica_verif_inverse_max_multiplier'), 'C05/2': (['C05'], ''),
  'C06/1': ([], 'NOT CAUGHT: Halley iteration of Inv_GammaP (12 steps through exp/log/lnGamma) - convergence of an iterative transcendental method is outside what the encoding decides'),
  'C06/2': (['C06'], 'missed at first: added the history-independence job (global-store trace, symbolic two-call comparison)'),
- 'C07/1': (['C07'], ''), 'C07/2': ([], 'NOT CAUGHT: needs more than 40 series iterations (a > 40); the loops are examined for K <= 3 (5) iterations'),
+ 'C07/1': (['C07'], ''), 'C07/2': (['C07', 'C06'], 'missed at first (needs more than 40 series iterations): added the inductive loop step (arbitrary loop state at the header) - the loop may leave only with a converged state'),
  'C08/1': (['C08'], ''), 'C08/2': (['C08'], 'missed at first: added the extrema-after-history job'),
  'C09/1': (['C09'], 'missed at first: added history jobs on real-constructor objects'), 'C09/2': (['C09'], 'missed at first: same'),
  'C10/1': (['C10'], 'missed at first: added the units-constructor job (x_dim symbolic)'), 'C10/2': (['C10', 'C04'], 'missed by C10 at first (square shapes only): added non-square index sweeps'),
  'C11/1': (['C11'], ''), 'C11/2': (['C11'], ''), 'C12/1': (['C12'], ''), 'C12/2': (['C12'], ''),
  'C13/1': (['C13'], 'missed at first: added the all-axes reversal obligation'), 'C13/2': (['C12'], 'flagged by C12 (the Gauss-Legendre rule it corrupts), not by C13 whose obligations take the rule as given'),
  'C14/1': (['C14'], 'symbolic candidate found from the start, native replay did not reproduce until it used the call shapes of the symbolic run'), 'C14/2': (['C14'], 'missed at first: added Vegas on an arbitrary valid grid'),
- 'C15/1': (['C15'], ''), 'C15/2': ([], 'NOT CAUGHT: changes the convergence test of the unshifted QR iteration; convergence is not decided'),
+ 'C15/1': (['C15'], ''), 'C15/2': (['C15'], 'missed at first: added the inductive step over the sweep loop of Eigenvalues (returns only when nearly triangular)'),
  'C16/1': (['C16'], ''), 'C16/2': (['C16'], 'symbolic candidate from the start; replay extended to the handedness of the frame'),
  'C17/1': (['C17'], 'missed at first: added the summation-of-the-tables job'), 'C17/2': (['C17'], ''),
  'C18/1': (['C18'], ''), 'C18/2': (['C18'], ''), 'C19/1': (['C19'], ''), 'C19/2': (['C19'], 'missed at first: added arbitrary positive weights'),
